@@ -13,10 +13,11 @@ use vengine::{Obs, Tier};
 pub const DEN: u32 = 1 << 20;
 /// DESIGN §1.5: independent formula, f32 result => 64 eps (AUC is in [0,1])
 pub const AUC_TOL: f64 = 64.0 * (f32::EPSILON as f64);
-/// linfa merges scores closer than this into one threshold (not reachable by the generator except for equal scores)
+/// linfa merges scores closer than this into one threshold (reached by the raw-f32 sub-checks: known finding KNOWN_MERGE)
 const MERGE: f32 = 1e-10;
 
 pub const KNOWN_ORIGIN: &str = "roc:origin-missing-when-lowest-score-is-zero";
+pub const KNOWN_MERGE: &str = "roc:distinct-scores-within-1e-10-merged";
 
 #[derive(Debug, Clone, Serialize, Deserialize)]
 pub struct RocCase {
@@ -56,15 +57,61 @@ fn observe_array(p: &Array1<Pr>, y: &[bool], obs: &mut Obs, what: &str) -> Optio
 }
 
 pub fn check(c: &RocCase, obs: &mut Obs) {
-    let n = c.scores.len();
-    let npos = c.labels.iter().filter(|b| **b).count();
-    if n < 2 || c.labels.len() != n || npos == 0 || npos == n {
+    let s: Vec<f32> = c.scores.iter().map(|&k| score(k)).collect();
+    check_scores(&s, &c.labels, &c.perm, obs)
+}
+
+/// Scores given as raw f32 bit patterns (clamped into [0,1]): adjacent floats, scores a few ulps apart.
+#[derive(Debug, Clone, Serialize, Deserialize)]
+pub struct NearCase {
+    pub bits: Vec<u32>,
+    pub labels: Vec<bool>,
+    /// sort keys of the common permutation (empty => reversal)
+    pub perm: Vec<u16>,
+}
+
+pub const ONE_BITS: u32 = 0x3f80_0000;
+
+pub fn check_near(c: &NearCase, obs: &mut Obs) {
+    let s: Vec<f32> = c.bits.iter().map(|&b| f32::from_bits(b.min(ONE_BITS))).collect();
+    check_scores(&s, &c.labels, &c.perm, obs)
+}
+
+/// The curve linfa's grouping rule produces: scores ascending, a new point whenever the score is
+/// further than `merge` (f32 arithmetic) from the first score of the current group.
+fn grouped_curve(s: &[f32], y: &[bool], merge: f32) -> Vec<(f32, f32)> {
+    let mut order: Vec<usize> = (0..s.len()).collect();
+    order.sort_by(|&a, &b| s[a].partial_cmp(&s[b]).unwrap_or(std::cmp::Ordering::Equal));
+    let npos = y.iter().filter(|b| **b).count() as f32;
+    let nneg = y.len() as f32 - npos;
+    let (mut tp, mut fp) = (0.0f32, 0.0f32);
+    let mut s0 = f32::NEG_INFINITY;
+    let mut out = vec![];
+    for i in order {
+        if (s[i] - s0).abs() > merge {
+            out.push((tp / npos, fp / nneg));
+            s0 = s[i];
+        }
+        if y[i] {
+            tp += 1.0;
+        } else {
+            fp += 1.0;
+        }
+    }
+    out.push((tp / npos, fp / nneg));
+    out
+}
+
+fn check_scores(s: &[f32], labels: &[bool], perm_keys: &[u16], obs: &mut Obs) {
+    let n = s.len();
+    let npos = labels.iter().filter(|b| **b).count();
+    if n < 2 || labels.len() != n || npos == 0 || npos == n || s.iter().any(|v| !(0.0..=1.0).contains(v)) {
         obs.skip("malformed_case");
         return;
     }
     let nneg = n - npos;
-    let s: Vec<f32> = c.scores.iter().map(|&k| score(k)).collect();
-    let y = &c.labels;
+    let s: Vec<f32> = s.to_vec();
+    let y: &Vec<bool> = &labels.to_vec();
 
     // ---- classes / non-trivial rule
     let mut distinct: Vec<f32> = s.clone();
@@ -80,7 +127,18 @@ pub fn check(c: &RocCase, obs: &mut Obs) {
     obs.class_if(has1, "score_one");
     obs.class_if(!any_tie, "all_scores_distinct");
     obs.class_if(distinct.len() == 1, "single_score_value");
-    obs.nontrivial_if(any_tie || has0 || has1);
+    // distinct scores closer than linfa's absolute merge threshold / closer than a few ulps
+    let near_pair = |lim: f32| distinct.windows(2).any(|w| w[1] - w[0] <= lim);
+    let within_merge = near_pair(MERGE);
+    let adjacent = distinct.windows(2).any(|w| w[1].to_bits() - w[0].to_bits() <= 4);
+    let cross_adjacent = (0..n).any(|i| {
+        (0..n).any(|j| y[i] != y[j] && s[i] != s[j] && (s[i].to_bits() as i64 - s[j].to_bits() as i64).abs() <= 4)
+    });
+    obs.class_if(adjacent, "distinct_scores_within_4_ulps");
+    obs.class_if(cross_adjacent, "positive_and_negative_within_4_ulps");
+    obs.class_if(within_merge, "distinct_scores_within_1e-10");
+    obs.class_if(adjacent && !within_merge, "within_4_ulps_but_further_than_1e-10");
+    obs.nontrivial_if(any_tie || has0 || has1 || adjacent);
 
     // ---- reference
     // Mann-Whitney: (#{pos > neg} + 1/2 #{pos = neg}) / (P N)
@@ -134,8 +192,19 @@ pub fn check(c: &RocCase, obs: &mut Obs) {
     let auc = got.auc as f64;
     if !((auc - mw).abs() <= AUC_TOL) {
         let truncated: Vec<(f64, f64)> = want_curve.iter().skip(1).map(|p| (p.0 as f64, p.1 as f64)).collect();
+        let merged = grouped_curve(&s, y, MERGE);
+        let merged64: Vec<(f64, f64)> = merged.iter().map(|p| (p.0 as f64, p.1 as f64)).collect();
         if defect_curve && (auc - trapezoid(&truncated)).abs() <= AUC_TOL {
             known_hit = true;
+        } else if within_merge && merged != want_curve && got.curve == merged && (auc - trapezoid(&merged64)).abs() <= AUC_TOL {
+            // exactly the curve of the absolute 1e-10 grouping rule: distinct scores were tied
+            obs.fail(
+                KNOWN_MERGE,
+                format!(
+                    "distinct scores closer than 1e-10 are grouped into one tie: area_under_curve {auc}, Mann-Whitney statistic {mw}; scores {:?} labels {:?} curve {:?} (one point per distinct score: {:?})",
+                    s, y, got.curve, want_curve
+                ),
+            );
         } else {
             obs.fail(
                 "roc:auc",
@@ -206,7 +275,7 @@ pub fn check(c: &RocCase, obs: &mut Obs) {
     }
 
     // ---- one common permutation
-    let perm: Vec<usize> = if c.perm.is_empty() { (0..n).rev().collect() } else { perm_from_keys(&c.perm, n) };
+    let perm: Vec<usize> = if perm_keys.is_empty() { (0..n).rev().collect() } else { perm_from_keys(perm_keys, n) };
     if perm.len() == n && perm.iter().all(|&i| i < n) {
         let pp = Array1::from(perm.iter().map(|&i| pr[i]).collect::<Vec<_>>());
         let yp: Vec<bool> = perm.iter().map(|&i| y[i]).collect();
@@ -299,5 +368,100 @@ pub fn strategy(_t: Tier) -> impl Strategy<Value = RocCase> {
                 labels[idx(b, n)] = false;
             }
             RocCase { scores, labels, perm }
+        })
+}
+
+// ---- adjacent floats / near ties across magnitudes
+
+/// bit pattern of (1 + mant/2^23) * 2^-(k+1), k in 0..=20 (magnitudes 0.5..1 down to 4.8e-7..9.5e-7);
+/// k = 21 => 0.0, k >= 22 => 1.0
+fn base_bits(k: u8, mant: u32) -> u32 {
+    match k {
+        0..=20 => ((126 - k as u32) << 23) | (mant & 0x7f_ffff),
+        21 => 0,
+        _ => ONE_BITS,
+    }
+}
+
+fn offset_bits(base: u32, off: i32) -> u32 {
+    (base as i64 + off as i64).clamp(0, ONE_BITS as i64) as u32
+}
+
+/// every vector of length 2..=max whose elements are (base + {0,1,2} ulps, label), for bases at
+/// magnitudes from 1 down to 1e-6 plus 0 and 1, both classes present
+pub fn enum_near_cases(t: Tier) -> Vec<NearCase> {
+    let max = t.pick(4usize, 5usize);
+    let bases: Vec<u32> = vec![
+        0.75f32.to_bits(),
+        0.5f32.to_bits() - 1,
+        0.3f32.to_bits(),
+        0.1f32.to_bits(),
+        1.0e-2f32.to_bits(),
+        1.1e-3f32.to_bits(),
+        5.0e-4f32.to_bits(),
+        1.0e-5f32.to_bits(),
+        1.0e-6f32.to_bits(),
+        0,
+        ONE_BITS - 2,
+    ];
+    let mut out = vec![];
+    for base in bases {
+        for len in 2..=max {
+            let total = 6usize.pow(len as u32);
+            for code in 0..total {
+                let mut c = code;
+                let mut bits = Vec::with_capacity(len);
+                let mut labels = Vec::with_capacity(len);
+                for _ in 0..len {
+                    let d = c % 6;
+                    c /= 6;
+                    bits.push(offset_bits(base, (d / 2) as i32));
+                    labels.push(d % 2 == 1);
+                }
+                let npos = labels.iter().filter(|b| **b).count();
+                if npos == 0 || npos == len {
+                    continue;
+                }
+                out.push(NearCase { bits, labels, perm: vec![] });
+            }
+        }
+    }
+    out
+}
+
+pub fn near_strategy(_t: Tier) -> impl Strategy<Value = NearCase> {
+    (
+        2usize..=24,
+        // up to three base scores: exponent selector and mantissa
+        proptest::collection::vec((0u8..=23, 0u32..(1 << 23)), 3),
+        1usize..=3,
+        // per element: which base, offset in ulps (-4..=4), and a rare unrelated fine score
+        proptest::collection::vec((any::<u16>(), -4i32..=4, 0u8..10, 0u32..=DEN), 24),
+        proptest::collection::vec(any::<bool>(), 24),
+        any::<u16>(),
+        any::<u16>(),
+        proptest::collection::vec(any::<u16>(), 24),
+    )
+        .prop_map(|(n, bases, nb, elems, labels, a, b, perm)| {
+            let bits: Vec<u32> = elems
+                .into_iter()
+                .take(n)
+                .map(|(which, off, other, fine)| {
+                    if other == 0 {
+                        score(fine).to_bits()
+                    } else {
+                        let (k, mant) = bases[idx(which, nb)];
+                        offset_bits(base_bits(k, mant), off)
+                    }
+                })
+                .collect();
+            let mut labels: Vec<bool> = labels.into_iter().take(n).collect();
+            if !labels.iter().any(|x| *x) {
+                labels[idx(a, n)] = true;
+            } else if labels.iter().all(|x| *x) {
+                labels[idx(b, n)] = false;
+            }
+            let perm: Vec<u16> = perm.into_iter().take(n).collect();
+            NearCase { bits, labels, perm }
         })
 }
